@@ -362,7 +362,7 @@ func c09Worker(seed uint64, tier, out string) error {
 	r := &Rng{s: seed*7919 + 13}
 	nsets := 10
 	if tier == "thorough" {
-		nsets = 120
+		nsets = 400
 	}
 	rep := c09Report{Rounds: map[string]int{}, Kinds: map[string]int{}}
 	for si := 0; si < nsets; si++ {
@@ -507,7 +507,7 @@ func runC09(r *Run) {
 	// ---- cache histories against Model/CacheConc.v ----
 	nh := 150
 	if r.Thorough() {
-		nh = 1500
+		nh = 6000
 	}
 	for h := 0; h < nh; h++ {
 		c09History(r, h)
